@@ -19,7 +19,7 @@ COMPONENTS = {"real": ["Atoms.save / save_lmpdat / load / load_lmpdat", "mofun.h
               "oracle_only": ["mofsim.readers.read_lmpdat_strict (independent strict reader of the documented format)", "mofsim.refmodel projection to 6 decimals"]}
 ASSUMPTIONS = ["'means what the structure says' is decided against the documented read_data format as implemented by the harness' strict reader, not against LAMMPS itself",
                "elements are not compared (re-derived from masses on loading: C14)", "cells that are not LAMMPS-oriented are outside the domain (the writer refuses them)"]
-NRUNS = {"quick": 1500, "thorough": 40000}
+NRUNS = {"quick": 10000, "thorough": 150000}
 MUST_REACH = ["restarts", "idempotence_checks", "atomic_style", "tilted_cells", "faults_fired", "fs_readlines"]
 
 
@@ -32,7 +32,7 @@ def generate(rng, tier):
         spec["cases"].append({"obj": rng.randrange(4), "style": rng.choice(["full", "full", "atomic"]), "via_save": via,
                               "via_load": rng.choice(["path", "file", "load_lmpdat"]),
                               "read_script": rng.choice([None, {"chunk": "random", "seed": rng.getrandbits(16)}, {"chunk": "one"}, {"chunk": "prime"}]),
-                              "fault": None})
+                              "fault": None, "read_fault": rng.random() if rng.random() < 0.25 else None})
     if rng.random() < 0.25:
         for c in spec["cases"]:
             c["fault"] = rng.choice([{"enospc_after": rng.randint(0, 2500)}, {"eio_after": rng.randint(0, 2500)}, {"crash": "lost"},
@@ -63,6 +63,24 @@ def execute(spec, ctx):
         else:
             restart.restart_lmpdat(ctx, fs, r, m, "case%d" % ci, style=case["style"], via_save=case["via_save"], via_load=case["via_load"],
                                    prefix="c13", read_script=case.get("read_script"), idempotence=True)
+        if case.get("read_fault") is not None and not case.get("fault"):
+            # injected read error while loading the file just written: the error must surface, or - if the loader got
+            # everything it needed before the failing read - the structure returned must still be right
+            path = "/sim/case%d.lmpdat" % ci
+            fired0 = fs.stats.get("eio_read_fired", 0)
+            nlines = fs.files[path].count("\n") + 1
+            k = 1 + int(case["read_fault"] * (nlines + 1))
+            try:
+                re_ = restart.load_lmpdat(ctx, fs, path, "file", case["style"], read_script={"eio_at_read": k})
+            except OSError:
+                re_ = None
+                ctx.count("read_faults_surfaced")
+            except Exception as e:
+                raise Violation("c13:read-fault-misreported", "an injected read error surfaced as %s: %s" % (type(e).__name__, e), site="load_lmpdat")
+            if fs.stats.get("eio_read_fired", 0) > fired0:
+                ctx.count("faults_fired")
+                if re_ is not None:
+                    raise Violation("c13:read-error-swallowed", "the disk reported EIO on read %d of %s but the loader returned a structure" % (k, path), site="load_lmpdat")
         if replcheck.snapshot(r) != before:
             raise Violation("c13:save-modified-object", "writing / re-reading modified the in-memory structure", site="save_lmpdat")
         ntypes = len(set(a.label for a in m.atoms))
